@@ -27,6 +27,8 @@ pub struct FAct {
 pub struct VCfg {
     /// 0 = D, 1 = u8, 2 = Z
     pub elem: u8,
+    /// 0 = bumpalo::collections::Vec, 1 = allocator_api2::vec::Vec<_, &Bump>
+    pub container: u8,
     pub start_cap: u8,
     /// initial contents: `prefill_len` elements whose values are the low bits of `prefill_bits`
     pub prefill_len: u8,
@@ -42,17 +44,19 @@ pub enum VMode {
 }
 
 pub struct VecModel {
+    /// 0 = bumpalo::collections::Vec, 1 = allocator_api2::vec::Vec<_, &Bump>
+    pub container: u8,
     pub mode: VMode,
     pub thorough: bool,
     pub max_len: usize,
     pub max_depth: usize,
 }
 
-struct VWorld<E: Elem> {
+struct VWorld<E: Elem, V: VecLike<E>, S: VecLike<E>> {
     envp: *mut ExecEnv,
     bump: *mut Bump,
-    bv: Option<BVec<'static, E>>,
-    sv: Option<Vec<E>>,
+    bv: Option<V>,
+    sv: Option<S>,
     labels: Labels,
     sib_v: Option<BVec<'static, u8>>,
     sib_v_ref: Vec<u8>,
@@ -202,40 +206,64 @@ fn apply<E: Elem, V: VecLike<E>>(slot: &mut Option<V>, world: u8, act: VAct, lab
             let s = src(world, labels, k as usize, hint);
             vec.v_splice(bounds(r, n), s, mode, &mut obs)
         }
-        VAct::Retain { p } => vec.v_retain(&mut |e: &E| {
-            tick(K_PRED, world);
-            let r = pred(p, call, e.val());
-            call += 1;
-            r
-        }),
-        VAct::DrainFilter { p, mode } => vec.v_drain_filter(
-            &mut |e: &mut E| {
+        VAct::Retain { p } => {
+            let mut clog = Obs::default();
+            vec.v_retain(&mut |e: &E| {
                 tick(K_PRED, world);
+                clog.el(e);
                 let r = pred(p, call, e.val());
                 call += 1;
                 r
-            },
-            mode,
-            &mut obs,
-        ),
+            });
+            obs.n(clog.digest());
+        }
+        VAct::DrainFilter { p, mode } => {
+            let mut clog = Obs::default();
+            vec.v_drain_filter(
+                &mut |e: &mut E| {
+                    tick(K_PRED, world);
+                    clog.el(e);
+                    let r = pred(p, call, e.val());
+                    call += 1;
+                    r
+                },
+                mode,
+                &mut obs,
+            );
+            obs.n(clog.digest());
+        }
         VAct::Dedup => vec.v_dedup(),
-        VAct::DedupBy { p } => vec.v_dedup_by(&mut |a: &mut E, b: &mut E| {
-            tick(K_PRED, world);
-            let r = match p {
-                0 => true,
-                1 => false,
-                _ => a.val() == b.val(),
-            };
-            r
-        }),
-        VAct::DedupByKey { p } => vec.v_dedup_by_key(&mut |a: &mut E| {
-            tick(K_KEY, world);
-            if p == 0 {
-                a.val()
-            } else {
-                7
-            }
-        }),
+        VAct::DedupBy { p } => {
+            // the arguments (which element is the candidate, which the last retained one) are part of the
+            // contract: log them, and include an asymmetric predicate
+            let mut clog = Obs::default();
+            vec.v_dedup_by(&mut |a: &mut E, b: &mut E| {
+                tick(K_PRED, world);
+                clog.el(a);
+                clog.el(b);
+                match p {
+                    0 => true,
+                    1 => false,
+                    5 => a.val() > b.val(),
+                    6 => a.val() < b.val(),
+                    _ => a.val() == b.val(),
+                }
+            });
+            obs.n(clog.digest());
+        }
+        VAct::DedupByKey { p } => {
+            let mut clog = Obs::default();
+            vec.v_dedup_by_key(&mut |a: &mut E| {
+                tick(K_KEY, world);
+                clog.el(a);
+                if p == 0 {
+                    a.val()
+                } else {
+                    7
+                }
+            });
+            obs.n(clog.digest());
+        }
         VAct::Reserve { i } => vec.v_reserve(ix(i, n)),
         VAct::ReserveExact { i } => vec.v_reserve_exact(ix(i, n)),
         VAct::TryReserve { i } => {
@@ -343,7 +371,7 @@ fn apply<E: Elem, V: VecLike<E>>(slot: &mut Option<V>, world: u8, act: VAct, lab
     obs
 }
 
-impl<E: Elem> VWorld<E> {
+impl<E: Elem, V: VecLike<E>, S: VecLike<E>> VWorld<E, V, S> {
     fn contents_eq(&self) -> Option<String> {
         let b = self.bv.as_ref().unwrap().sl();
         let s = self.sv.as_ref().unwrap().sl();
@@ -459,7 +487,7 @@ impl<E: Elem> VWorld<E> {
             let slot = &mut self.bv;
             let l = &mut l0;
             let lk = &mut leaked0;
-            arena_op(envp, step, 0, &[], || apply::<E, BVec<'static, E>>(slot, 0, fa.a, l, lk))
+            arena_op(envp, step, 0, &[], || apply::<E, V>(slot, 0, fa.a, l, lk))
         };
         let fault_fired = fa.fk != 0 && !disarm_fault();
         if fa.fk != 0 {
@@ -481,7 +509,7 @@ impl<E: Elem> VWorld<E> {
             let l = &mut l1;
             let lk = &mut leaked1;
             let _g = Callback::enter();
-            crate::util::quiet(|| catch_unwind(AssertUnwindSafe(|| apply::<E, Vec<E>>(slot, 1, fa.a, l, lk))).map_err(|p| classify_panic(&*p)))
+            crate::util::quiet(|| catch_unwind(AssertUnwindSafe(|| apply::<E, S>(slot, 1, fa.a, l, lk))).map_err(|p| classify_panic(&*p)))
         };
         ZWORLD.with(|w| w.set(0));
         self.labels.next = l0.next.max(l1.next);
@@ -594,9 +622,9 @@ impl<E: Elem> VWorld<E> {
         let lab = self.labels.take();
         let bvm = self.bv.as_mut().unwrap();
         let r = arena_op(envp, self.step, 0, &[], || {
-            bvm.push(E::mk(0, lab, 1));
-            let s: usize = bvm.iter().map(|e| e.val() as usize).sum();
-            bvm.clear();
+            bvm.v_push(E::mk(0, lab, 1));
+            let s: usize = bvm.sl().iter().map(|e| e.val() as usize).sum();
+            bvm.v_clear();
             s
         });
         if let Err(p) = r {
@@ -656,7 +684,7 @@ fn short_panic(p: &PanicClass) -> String {
 }
 
 impl VecModel {
-    fn run_e<E: Elem>(&self, w: &mut Worker, h: &Hist<VCfg, FAct>, want_enabled: bool) -> RunOut<FAct> {
+    fn run_e<E: Elem, V: VecLike<E>, S: VecLike<E>>(&self, w: &mut Worker, h: &Hist<VCfg, FAct>, want_enabled: bool) -> RunOut<FAct> {
         let envp: *mut ExecEnv = &mut *w.env;
         unsafe { (*envp).begin_execution() };
         reset_ledgers();
@@ -667,9 +695,9 @@ impl VecModel {
         let bump: *mut Bump = Box::into_raw(Box::new(arena_op(envp, 0, 0, &[], Bump::new).unwrap()));
         let bref: &'static Bump = unsafe { &*bump };
         let sc = h.cfg.start_cap as usize;
-        let bv0: BVec<'static, E> = arena_op(envp, 0, 0, &[], || if sc == 0 { BVec::new_in(bref) } else { BVec::with_capacity_in(sc, bref) }).unwrap();
-        let sv0: Vec<E> = if sc == 0 { Vec::new() } else { Vec::with_capacity(sc) };
-        let mut world: VWorld<E> = VWorld {
+        let bv0: V = arena_op(envp, 0, 0, &[], || V::new_in_arena(bref, sc)).unwrap();
+        let sv0: S = S::new_in_arena(bref, sc);
+        let mut world: VWorld<E, V, S> = VWorld {
             envp, bump, bv: Some(bv0), sv: Some(sv0), labels: Labels { next: 0 }, sib_v: None, sib_v_ref: Vec::new(), sib_s: None, sib_s_ref: String::new(), boxes: Vec::new(), canaries: Vec::new(),
             viol: Vec::new(), judge: false, step: 0, outcome: 0, diverged: false, leaked_labels: Vec::new(), _p: PhantomData,
         };
@@ -677,9 +705,9 @@ impl VecModel {
             let val = (h.cfg.prefill_bits >> k) & 1;
             let lab = world.labels.take();
             let bvm = world.bv.as_mut().unwrap();
-            let _ = arena_op(envp, 0, 0, &[], || bvm.push(E::mk(0, lab, val)));
+            let _ = arena_op(envp, 0, 0, &[], || bvm.v_push(E::mk(0, lab, val)));
             let _g = Callback::enter();
-            world.sv.as_mut().unwrap().push(E::mk(1, lab, val));
+            world.sv.as_mut().unwrap().v_push(E::mk(1, lab, val));
         }
         let n = h.len as usize;
         for (i, s) in h.steps().iter().enumerate() {
@@ -701,7 +729,7 @@ impl VecModel {
         let cov = if self.mode == VMode::Faults && world.diverged && (1..=3).contains(&world.outcome) { 1u64 << (world.outcome - 1) } else { 0 };
         let mut out = RunOut { key: world.key(), enabled: Vec::new(), nreq_last: 0, terminal: world.diverged, violations: Vec::new(), cov, outcome: world.outcome };
         if want_enabled && !world.diverged {
-            out.enabled = self.enabled::<E>(&world, n);
+            out.enabled = self.enabled::<E, V, S>(&world, n, h.cfg.container);
         }
         // ---- end of execution: drop containers, then the arena; ledgers must still agree
         let judge_end = true;
@@ -765,10 +793,18 @@ impl VecModel {
             v(&mut world.viol, 3, "leak_after_drop", "leak_after_drop/coll".into(), "arena memory still held after drop".into());
         }
         out.violations = std::mem::take(&mut world.viol);
+        if h.cfg.container == 1 {
+            // std collections parameterised by the arena: this is the Allocator contract's business
+            for x in out.violations.iter_mut() {
+                if matches!(x.prop, 13 | 15) {
+                    x.prop = 12;
+                }
+            }
+        }
         out
     }
 
-    fn enabled<E: Elem>(&self, w: &VWorld<E>, depth: usize) -> Vec<FAct> {
+    fn enabled<E: Elem, V: VecLike<E>, S: VecLike<E>>(&self, w: &VWorld<E, V, S>, depth: usize, container: u8) -> Vec<FAct> {
         let mut acts: Vec<VAct> = Vec::with_capacity(1500);
         let n = w.bv.as_ref().unwrap().sl().len();
         let l = self.max_len;
@@ -865,7 +901,7 @@ impl VecModel {
             }
         }
         acts.push(VAct::Dedup);
-        for p in [0u8, 1, 4] {
+        for p in [0u8, 1, 4, 5, 6] {
             acts.push(VAct::DedupBy { p });
         }
         acts.push(VAct::DedupByKey { p: 0 });
@@ -913,6 +949,10 @@ impl VecModel {
         }
         if w.boxes.len() < 1 {
             acts.push(VAct::SibBox);
+        }
+        if container == 1 {
+            // allocator_api2's Vec: only what that type offers
+            acts.retain(|a| !matches!(a, VAct::DrainFilter { .. } | VAct::ExtendCopy { .. } | VAct::ExtendCopies { .. } | VAct::WriteIo { .. } | VAct::CollectIn { .. }));
         }
         let last = depth + 1 >= self.max_depth;
         match self.mode {
@@ -968,7 +1008,8 @@ impl Model for VecModel {
     fn configs(&self) -> Vec<VCfg> {
         match self.mode {
             VMode::Diff => {
-                let mk = |elem, start_cap| VCfg { elem, start_cap, prefill_len: 0, prefill_bits: 0 };
+                let c = self.container;
+                let mk = |elem, start_cap| VCfg { elem, container: c, start_cap, prefill_len: 0, prefill_bits: 0 };
                 vec![mk(0, 0), mk(1, 0), mk(2, 0), mk(0, 3), mk(1, 3)]
             }
             VMode::Faults => {
@@ -977,7 +1018,7 @@ impl Model for VecModel {
                 for len in 0..=self.max_len as u8 {
                     for bits in 0..(1u16 << len) {
                         for start_cap in [0u8, 9] {
-                            v.push(VCfg { elem: 0, start_cap, prefill_len: len, prefill_bits: bits as u8 });
+                            v.push(VCfg { elem: 0, container: self.container, start_cap, prefill_len: len, prefill_bits: bits as u8 });
                         }
                     }
                 }
@@ -986,10 +1027,13 @@ impl Model for VecModel {
         }
     }
     fn run(&self, w: &mut Worker, h: &Hist<VCfg, FAct>, want_enabled: bool) -> RunOut<FAct> {
-        match h.cfg.elem {
-            0 => self.run_e::<D>(w, h, want_enabled),
-            1 => self.run_e::<u8>(w, h, want_enabled),
-            _ => self.run_e::<Z>(w, h, want_enabled),
+        match (h.cfg.container, h.cfg.elem) {
+            (0, 0) => self.run_e::<D, BVec<'static, D>, Vec<D>>(w, h, want_enabled),
+            (0, 1) => self.run_e::<u8, BVec<'static, u8>, Vec<u8>>(w, h, want_enabled),
+            (0, _) => self.run_e::<Z, BVec<'static, Z>, Vec<Z>>(w, h, want_enabled),
+            (_, 0) => self.run_e::<D, AVec<D>, GVec<D>>(w, h, want_enabled),
+            (_, 1) => self.run_e::<u8, AVec<u8>, GVec<u8>>(w, h, want_enabled),
+            (_, _) => self.run_e::<Z, AVec<Z>, GVec<Z>>(w, h, want_enabled),
         }
     }
     fn cov_names(&self) -> &'static [&'static str] {
@@ -1002,6 +1046,6 @@ impl Model for VecModel {
         let steps: Vec<String> = h.steps().iter().map(|s| if s.act.fk == 0 { format!("{:?}", s.act.a) } else { format!("{:?} with the {} callback panicking at its invocation #{}", s.act.a, fault_kind_name(s.act.fk), s.act.fi) }).collect();
         let en = ["D (drop-tracked)", "u8", "Z (zero-sized, droppable)"][h.cfg.elem as usize];
         let init: Vec<u8> = (0..h.cfg.prefill_len).map(|k| (h.cfg.prefill_bits >> k) & 1).collect();
-        serde_json::json!({"container": "collections::Vec", "element": en, "initial_capacity": h.cfg.start_cap, "initial_values": init, "steps": steps})
+        serde_json::json!({"container": if h.cfg.container == 0 { "bumpalo::collections::Vec" } else { "allocator_api2::vec::Vec<_, &Bump>" }, "element": en, "initial_capacity": h.cfg.start_cap, "initial_values": init, "steps": steps})
     }
 }
